@@ -75,7 +75,11 @@ def case_strategy(draw, pair=None):
             pre = {"kind": "e-set"}
         elif k in ("reused", "predicate"):
             pre = {"kind": k, "code0": draw(st.sampled_from([1001, 2001, 2002, 3002, 3008, 4001, 4181, 5001, 5012, 5999]))}
-    return {"req": req, "ans": ans, "rc": rcspec, "via": via, "req_form": draw(st.sampled_from(["built", "decoded"])), "ids": ids, "pre": pre}
+    # request history on the application object (route path): the request under test is a potentially re-transmitted one (T flag) that
+    # repeats the End-to-End identifier of a request served just before under another Hop-by-Hop identifier, or simply the second
+    # request with the same identifiers / another one
+    earlier = draw(st.sampled_from([None, None, "retransmission", "retransmission-no-t-flag", "same-ids", "other-ids"])) if via == "route" else None
+    return {"earlier": earlier, "req": req, "ans": ans, "rc": rcspec, "via": via, "req_form": draw(st.sampled_from(["built", "decoded"])), "ids": ids, "pre": pre}
 
 
 def _build(case_typed, extra_kwargs=None):
@@ -138,11 +142,31 @@ def check_pair(case):
             if app_id not in workers:
                 return "discard", "request Application-ID is not the library application (caller-supplied)", []
 
+            served = []
+
             @app.route(application_id=app_id, command_code=req_wire["cmd"].to_bytes(3, "big"))
             def handler(req):
+                served.append(req)
+                if case.get("earlier") and len(served) == 1:
+                    return _build(case["ans"], extra if extra else {"result_code": 2001})      # the answer to the earlier request
                 return answer
 
+            if case.get("earlier"):
+                first = bytearray(request.dump())
+                if case["earlier"] in ("retransmission", "retransmission-no-t-flag"):
+                    first[12:16] = ((req_wire["hbh"] ^ 0x00010100) & 0xFFFFFFFF).to_bytes(4, "big")
+                elif case["earlier"] == "other-ids":
+                    first[12:16] = ((req_wire["hbh"] + 1) & 0xFFFFFFFF).to_bytes(4, "big")
+                    first[16:20] = ((req_wire["e2e"] + 1) & 0xFFFFFFFF).to_bytes(4, "big")
+                app.callback_route(DiameterMessage.load(bytes(first))[0])
+                inproc.drain(workers[app_id])
+                if case["earlier"] == "retransmission":
+                    again = bytearray(request.dump())
+                    again[4] |= 0x10
+                    request = DiameterMessage.load(bytes(again))[0]
+                    req_wire = rc.dec_stream(bytes(again))[0]
             app.callback_route(request)
+            # (whether the handler runs again for a re-transmission is C13's business; here the answer that leaves is judged)
             out = inproc.drain(workers[app_id])
             if len(out) != 1:
                 return "ok", None, [V("exactly one answer is handed to the worker", f"route/sent-count", f"{len(out)} messages")]
@@ -212,6 +236,8 @@ def features(case):
         if k == "session_id" and v.get("t") == "sid":
             f.add("session-id-generated")
     f.add(f"family={min(n // 1000, 6)}")
+    if case.get("earlier"):
+        f.add("request-history=" + case["earlier"])
     return f
 
 
@@ -295,7 +321,7 @@ def main(ctx):
     col.extra["exhaustive_scope"] = f"every Result-Code 1001..5999 (non-multiples of 1000) through decorate_answer on {len(idxs)} request/answer pair(s)"
     for path, rec in common.load_replays(PID):
         col.record(rec["case"], run_case(rec["case"]), nontrivial=True, classes=["replay"])
-    ctx.required_classes = ["via=route", "via=decorate", "req=decoded", "mode=exp", "mode=both", "session-id-unaligned", "answer-object=reused",
+    ctx.required_classes = ["request-history=retransmission", "via=route", "via=decorate", "req=decoded", "mode=exp", "mode=both", "session-id-unaligned", "answer-object=reused",
                             "answer-object=e-set", "answer-object=predicate",
                             "code-outside-x001-x007", "sweep", "family=3", "family=4", "family=5"]
     ctx.assumptions = ["handler answers are freshly constructed typed answers (E bit not pre-set, Session-Id present when the request has one)",
